@@ -741,9 +741,17 @@ fn run(ctx: &Ctx) -> Report {
     }
     nfs_clause(ctx, &mut rep);
     let all = scenarios(ctx.tier);
+    let mut reported = 0usize;
     for (u, sc) in all.iter().enumerate() {
         if !ctx.owns(u) {
             continue;
+        }
+        if reported >= 4 {
+            // every violating scenario costs seconds of real waiting (a blocked observer is only
+            // recognised after a second): four reports per worker are enough to decide the run
+            rep.not_exhaustive = true;
+            rep.note("stopped after four violations in this worker: the run is NOT exhaustive".to_string());
+            break;
         }
         rep.evaluations += 1;
         match run_checked(sc) {
@@ -773,6 +781,7 @@ fn run(ctx: &Ctx) -> Report {
                     }
                     rep.count("violations_confirmed_in_a_fresh_process", 1);
                 }
+                reported += 1;
                 rep.violation(Violation { key: format!("C18:{}", r.replace(' ', ";")), summary: format!("AtomicBaseTime [{}]: {}", r, e), replay_text: format!("scenario: {}\nobserved: {}\n", r, e) });
             }
         }
